@@ -10,6 +10,7 @@ import (
 	"os"
 	"path/filepath"
 	"strings"
+	"sync"
 	"time"
 
 	"github.com/bmeg/grip/config"
@@ -51,6 +52,9 @@ type GripServer struct {
 	sources  map[string]gripper.GRIPSourceClient
 	baseDir  string
 	jStorage jobstorage.JobStorage
+	// mu guards dbs, graphMap, schemas, mappings, plugins and sources: handlers run
+	// concurrently, and graph creation, schema upload and plugin start change these maps
+	mu sync.RWMutex
 }
 
 // NewGripServer initializes a GRPC server to connect to the graph store
@@ -140,7 +144,20 @@ func StartDriver(d config.DriverConfig, sources map[string]gripper.GRIPSourceCli
 	return nil, fmt.Errorf("unknown driver: %#v", d)
 }
 
+// drivers returns the graph database drivers known at this moment
+func (server *GripServer) drivers() map[string]gdbi.GraphDB {
+	server.mu.RLock()
+	defer server.mu.RUnlock()
+	out := make(map[string]gdbi.GraphDB, len(server.dbs))
+	for k, v := range server.dbs {
+		out[k] = v
+	}
+	return out
+}
+
 func (server *GripServer) getGraphDB(graph string) (gdbi.GraphDB, error) {
+	server.mu.RLock()
+	defer server.mu.RUnlock()
 	if driverName, ok := server.graphMap[graph]; ok {
 		if gdb, ok := server.dbs[driverName]; ok {
 			return gdb, nil
@@ -406,19 +423,23 @@ func (server *GripServer) Serve(pctx context.Context) error {
 	log.Infoln("HTTP proxy connecting to localhost:" + server.conf.Server.HTTPPort)
 
 	// load existing schemas from db
-	for _, gdb := range server.dbs {
+	for _, gdb := range server.drivers() {
 		for _, graph := range gdb.ListGraphs() {
 			if isSchema(graph) {
 				log.WithFields(log.Fields{"graph": graph}).Debug("Loading existing schema into cache")
 				schema, err := server.getGraph(graph)
 				if err == nil {
+					server.mu.Lock()
 					server.schemas[strings.TrimSuffix(graph, schemaSuffix)] = schema
+					server.mu.Unlock()
 				}
 			} else if isMapping(graph) {
 				log.WithFields(log.Fields{"graph": graph}).Debug("Loading existing mapping into cache")
 				mapping, err := server.getGraph(graph)
 				if err == nil {
+					server.mu.Lock()
 					server.mappings[strings.TrimSuffix(graph, mappingSuffix)] = mapping
+					server.mu.Unlock()
 				}
 			}
 		}
@@ -442,7 +463,7 @@ func (server *GripServer) Serve(pctx context.Context) error {
 	}
 
 	log.Infoln("closing database...")
-	for _, gdb := range server.dbs {
+	for _, gdb := range server.drivers() {
 		err = gdb.Close()
 		if err != nil {
 			log.Errorln("db.Close() error:", err)
